@@ -3,6 +3,7 @@ import Pi2.Props.C15
 import Pi2.XProofTie
 import Pi2.MM.ConvCompose
 import Pi2.MM.ConvCoherence
+import Pi2.MM.ConvSugar
 /-!
 # C16 — valid Metamath proofs translate to checkable proofs of the same statement
 
@@ -55,8 +56,17 @@ configuration (`--optimize` or not).  Compressed-proof decoding is C15.
   notation (`axiom.pattern` = the image of `( n v₁ … vₖ )`) is the image of the notation's body;
   `notation_example`: a concrete database with a declared notation (kernel evaluation).
 * The three theorems at the top hold for every well-formed database, with or without declared notations.  The TEXT ties
-  (`exec_proof_*` hold for every well-formed database; `converter_*`, `translation_text_*`) go through `dbOfMDb`, which
-  produces no notation: the converter's notation paths (`_add_notation`, `sugar_axiom`) are tied to the model by the
+  (`exec_proof_*` hold for every well-formed database; `converter_*`, `translation_text_*`) go through `dbOfMDb`.
+* `#Notation` statements in the SPECIFICATION: `dbOfMDb` = the core specification `dbOfCore` of the database without its
+  `#Notation` statements + the bodies at the constructor entries of their heads (`Ctor.body`; numbering and label table unchanged);
+  `FragmentShape` = `CoreShape` of the database without them + `sugarShape` (after the constructor axiom of the head, same
+  variables; body over those variables and EARLIER notations; one statement per head, in the order of the constructor axioms;
+  heads applied to exactly their number of arguments everywhere; labels pairwise different).  `spec_without_notations`,
+  `core_shape_of_sugarFree`, `sugarFree_of_spec_core`; `fragment_shape_notation_example`, `spec_notation_example`,
+  `forward_notation_not_in_shape` (kernel evaluation).  The CONVERTER TEXT ties (`converter_*`, `translation_text_*`, Props/C16b
+  `translation_*text*`) are for databases WITHOUT `#Notation` statements (hypothesis `ConvTie.InFragment(X)`, which implies it, resp.
+  `FragmentShape` + `sugarFree`): `MetamathConverter._add_notation` is outside the translated fragment of `vlib/transconv.py`
+  (`Pi2/Gen/MMConv.lean` answers `Res.outside` on a sugar axiom); the converter's notation paths are tied to the model by the
   byte-for-byte comparison of `vlib/props/c16.py` only.
 * NOT covered by a theorem: the byte limits of the wire format (a proof that needs more than 256
   memory slots cannot be serialised: recorded finding KF-C16-slots).
@@ -157,7 +167,8 @@ theorem converter_text_is_the_model (mdb : MDb) (target : String) (h : ConvTie.I
         (∃ a pf, Gen.MMConv.get_lemma_by_name sp.names.consts.idxOf fuel c target = .ok a ∧
           a.pattern = (XProofTie.ofDB sp.db sp.goal).targetPattern ∧ a.proof? = some pf ∧ ConvTie.proofAgrees sp pf = true ∧
           Gen.MMConv.lemmas sp.names.consts.idxOf fuel c = [target]) :=
-  ConvTie.converter_agrees mdb target h
+  let ⟨sp, h1, rest⟩ := ConvTie.converter_agrees mdb target h
+  ⟨sp, MM.ConvSpec.dbOfMDb_of_dbOfCore h1, rest⟩
 
 /-- the translation as written is the model: converter text + `exec_proof` text on a database of the fragment = `execProof` on the
 specification's database, label list and steps (fuel `≥ dbFuel` for the converter, `≥ 5` for `exec_proof`) -/
@@ -169,24 +180,30 @@ theorem translation_text_is_the_model (mdb : MDb) (target : String) (h : ConvTie
         ∀ (cfg : Cfg) (n : Nat) (s : PySt) (acc : List Call), 5 ≤ n →
           XProofTie.outcome (Gen.XProof.exec_proof (ConvTie.convOf sp.names.consts.idxOf fuel c sp target) cfg n sp.labels sp.steps s acc) =
             execProof cfg n sp.db sp.goal sp.labels sp.steps s acc :=
-  ConvTie.translation_tie mdb target h
+  let ⟨sp, h1, rest⟩ := ConvTie.translation_tie mdb target h
+  ⟨sp, MM.ConvSpec.dbOfMDb_of_dbOfCore h1, rest⟩
 
 /-- **coherence of the specification**: on every database of the shape (a predicate on the statements alone) `dbOfMDb` succeeds,
 its output agrees with every statement (the conjuncts about `dbOfMDb` of `ConvTie.InFragment` / `ConvTie.InFragmentX`) and its
 database is well formed -/
-theorem spec_coherent_of_shape (mdb : MDb) (target : String) (h : MM.ConvSpec.FragmentShape mdb target = true) :
+theorem spec_coherent_of_shape (mdb : MDb) (target : String) (h : MM.ConvSpec.FragmentShape mdb target = true)
+    (hs : MM.ConvSpec.sugarFree mdb = true) :
     ∃ sp, MM.ConvSpec.dbOfMDb mdb target = some sp ∧ ConvCoh.Coherent mdb target sp ∧ sp.db.wf = true :=
-  ConvCoh.coherence mdb target h
+  let ⟨sp, h1, rest⟩ := ConvCoh.coherence mdb target (MM.ConvSpec.coreShape_of_sugarFree h hs)
+  ⟨sp, MM.ConvSpec.dbOfMDb_of_dbOfCore h1, rest⟩
 
 /-- the run conditions and the coherence conditions follow from the shape -/
-theorem in_fragment_of_shape (mdb : MDb) (target : String) (h : MM.ConvSpec.FragmentShape mdb target = true) :
+theorem in_fragment_of_shape (mdb : MDb) (target : String) (h : MM.ConvSpec.FragmentShape mdb target = true)
+    (hs : MM.ConvSpec.sugarFree mdb = true) :
     ConvTie.InFragmentM mdb (ConvTie.dbFuel mdb) target = true ∧ ConvTie.InFragment mdb target = true ∧
       ConvTie.InFragmentX mdb target = true :=
+  have h := MM.ConvSpec.coreShape_of_sugarFree h hs
   ⟨ConvCoh.inFragmentM_of_shape mdb target h, ConvCoh.inFragmentConv_of_shape mdb target h, ConvCoh.inFragmentX_of_shape mdb target h⟩
 
 /-- `converter_text_is_the_model` for every database of the shape `MM.ConvSpec.FragmentShape` — no hypothesis about the run of the
 converter or the output of `dbOfMDb` -/
-theorem converter_text_is_the_model_of_shape (mdb : MDb) (target : String) (h : MM.ConvSpec.FragmentShape mdb target = true) :
+theorem converter_text_is_the_model_of_shape (mdb : MDb) (target : String) (h : MM.ConvSpec.FragmentShape mdb target = true)
+    (hs : MM.ConvSpec.sugarFree mdb = true) :
     ∃ sp, MM.ConvSpec.dbOfMDb mdb target = some sp ∧ sp.db.wf = true ∧
       ∀ fuel, ConvTie.dbFuel mdb ≤ fuel → ∃ c, Gen.MMConv.MetamathConverter_init sp.names.consts.idxOf fuel default mdb = .ok c ∧
         (∀ l v, (l, v) ∈ ConvTie.floatPairs mdb →
@@ -203,10 +220,11 @@ theorem converter_text_is_the_model_of_shape (mdb : MDb) (target : String) (h : 
         (∃ a pf, Gen.MMConv.get_lemma_by_name sp.names.consts.idxOf fuel c target = .ok a ∧
           a.pattern = (XProofTie.ofDB sp.db sp.goal).targetPattern ∧ a.proof? = some pf ∧ ConvTie.proofAgrees sp pf = true ∧
           Gen.MMConv.lemmas sp.names.consts.idxOf fuel c = [target]) :=
-  converter_text_is_the_model mdb target (ConvCoh.inFragmentConv_of_shape mdb target h)
+  converter_text_is_the_model mdb target (ConvCoh.inFragmentConv_of_shape mdb target (MM.ConvSpec.coreShape_of_sugarFree h hs))
 
 /-- `translation_text_is_the_model` for every database of the shape `MM.ConvSpec.FragmentShape` -/
-theorem translation_text_is_the_model_of_shape (mdb : MDb) (target : String) (h : MM.ConvSpec.FragmentShape mdb target = true) :
+theorem translation_text_is_the_model_of_shape (mdb : MDb) (target : String) (h : MM.ConvSpec.FragmentShape mdb target = true)
+    (hs : MM.ConvSpec.sugarFree mdb = true) :
     ∃ sp, MM.ConvSpec.dbOfMDb mdb target = some sp ∧
       ∀ fuel, ConvTie.dbFuel mdb ≤ fuel → ∃ c, Gen.MMConv.MetamathConverter_init sp.names.consts.idxOf fuel default mdb = .ok c ∧
         (∃ a pf, Gen.MMConv.get_lemma_by_name sp.names.consts.idxOf fuel c target = .ok a ∧ a.proof? = some pf ∧
@@ -214,7 +232,7 @@ theorem translation_text_is_the_model_of_shape (mdb : MDb) (target : String) (h 
         ∀ (cfg : Cfg) (n : Nat) (s : PySt) (acc : List Call), 5 ≤ n →
           XProofTie.outcome (Gen.XProof.exec_proof (ConvTie.convOf sp.names.consts.idxOf fuel c sp target) cfg n sp.labels sp.steps s acc) =
             execProof cfg n sp.db sp.goal sp.labels sp.steps s acc :=
-  translation_text_is_the_model mdb target (ConvCoh.inFragmentX_of_shape mdb target h)
+  translation_text_is_the_model mdb target (ConvCoh.inFragmentX_of_shape mdb target (MM.ConvSpec.coreShape_of_sugarFree h hs))
 
 /-- non-vacuity: a concrete database of the shape — constants, a binary constructor, `\imp` / `\app`, three `$f` statements in
 shuffled order, an axiom, a rule with two hypotheses, the three proof rules, a goal with a compressed proof
@@ -223,10 +241,53 @@ theorem fragment_shape_example : MM.ConvSpec.FragmentShape MM.ConvSpec.Example.d
 
 /-- … to which the theorems therefore apply -/
 example : ∃ sp, MM.ConvSpec.dbOfMDb MM.ConvSpec.Example.db "goal" = some sp ∧ sp.db.wf = true :=
-  let ⟨sp, h1, h2, _⟩ := converter_text_is_the_model_of_shape _ _ fragment_shape_example
+  let ⟨sp, h1, h2, _⟩ := converter_text_is_the_model_of_shape _ _ fragment_shape_example (by decide +kernel)
   ⟨sp, h1, h2⟩
 
 /-! ## declared notations -/
+
+/-- on a database without `#Notation` statements the specification is the core specification (the one the converter tie is about) -/
+theorem spec_without_notations (mdb : MDb) (target : String) (h : MM.ConvSpec.sugarFree mdb = true) :
+    MM.ConvSpec.dbOfMDb mdb target = MM.ConvSpec.dbOfCore mdb target :=
+  MM.ConvSpec.dbOfMDb_of_sugarFree h target
+
+/-- `FragmentShape` of a database without `#Notation` statements is the notation-free shape `CoreShape` (hypothesis of
+`ConvCoh.coherence` / `ConvCoh.inFragment_of_shape`) … -/
+theorem core_shape_of_sugarFree (mdb : MDb) (target : String) (h : MM.ConvSpec.FragmentShape mdb target = true)
+    (hs : MM.ConvSpec.sugarFree mdb = true) : MM.ConvSpec.CoreShape mdb target = true :=
+  MM.ConvSpec.coreShape_of_sugarFree h hs
+
+/-- conservativity: every database of the notation-free shape `CoreShape` (the hypothesis of the `…_of_shape` theorems before
+`#Notation` statements entered the specification) has the shape and no `#Notation` statement — so `FragmentShape` + `sugarFree`
+is exactly `CoreShape`, and the `…_of_shape` theorems cover exactly the databases they covered -/
+theorem fragment_shape_of_core_shape (mdb : MDb) (target : String) (h : MM.ConvSpec.CoreShape mdb target = true) :
+    MM.ConvSpec.FragmentShape mdb target = true ∧ MM.ConvSpec.sugarFree mdb = true :=
+  ⟨MM.ConvSpec.fragmentShape_of_coreShape h, MM.ConvSpec.sugarFree_of_coreShape h⟩
+
+/-- … and whatever the core specification accepts (in particular every database of `ConvTie.InFragment`) has no `#Notation` statement -/
+theorem sugarFree_of_spec_core (mdb : MDb) (target : String) (sp : MM.ConvSpec.Spec) (h : MM.ConvSpec.dbOfCore mdb target = some sp) :
+    MM.ConvSpec.sugarFree mdb = true ∧ MM.ConvSpec.dbOfMDb mdb target = some sp :=
+  ⟨MM.ConvSpec.sugarFree_of_dbOfCore h, MM.ConvSpec.dbOfMDb_of_dbOfCore h⟩
+
+/-- non-vacuity of `FragmentShape` WITH `#Notation` statements: `Example.dbN` (two notations, the second over the first, used in an
+axiom and in the goal); kernel evaluation -/
+theorem fragment_shape_notation_example : MM.ConvSpec.FragmentShape MM.ConvSpec.Example.dbN "goal" = true :=
+  MM.ConvSpec.Example.dbN_in_fragment
+
+/-- … on which `dbOfMDb` returns a well-formed database (`DB.wf`, incl. `notOk`) whose proof `mmVerify` accepts, with exactly the
+bodies `n x := f x (x → c)`, `m := n c` at the constructor entries of `n` and `m` -/
+theorem spec_notation_example :
+    (match MM.ConvSpec.dbOfMDb MM.ConvSpec.Example.dbN "goal" with
+     | some sp => sp.db.wf && mmVerify sp.db sp.goal sp.labels sp.steps &&
+        (sp.db.ctors.map fun k => (k.sym, k.args, k.body.isSome)) == [(6, [], false), (7, [2, 0], false), (9, [0], true), (10, [], true)] &&
+        (sp.db.ctors.filterMap (·.body)) == [MM.Term.con 7 [.var 0, .imp (.var 0) (.con 6 [])], MM.Term.con 9 [.con 6 []]]
+     | none => false) = true :=
+  MM.ConvSpec.Example.dbN_spec
+
+/-- the clause "a `#Notation` statement comes after the notations its body uses" (KF-C16-forward-notation): the same database with the
+two `#Notation` statements exchanged is not of the shape -/
+theorem forward_notation_not_in_shape : MM.ConvSpec.FragmentShape MM.ConvSpec.Example.dbFwd "goal" = false :=
+  MM.ConvSpec.Example.dbFwd_not_in_fragment
 
 /-- a step that cites the constructor axiom `n-is-pattern` of a declared notation: `xstep` (`xCtor`) pushes
 `image db ( n v₁ … vₖ )` — `axiom.pattern`, the notation's closure called on its own metavariables —, and that is the image of
